@@ -29,7 +29,7 @@ pub fn run_c15(args: &Args) -> i32 {
     let rep = new_report("C15", args, "exploration");
     let complete = run_engine("C15", &args.tier, &rep);
     rep.finish(
-        "for each of 21 decoders (load with four option sets, load_unverified_heads, load_incremental into an empty and a populated document, rescue, Change::from_bytes (+decode +apply), Bundle, sync Message::decode (+receive +generate, also as the answer to a message of ours), State::decode, BloomFilter::try_from (+queries), Cursor from bytes and from strings (+resolution), ObjId from bytes (+reads), ActorId / ChangeHash from strings and bytes, import / import_obj): (a) EVERY byte string of length <= 2 (quick) / <= 3 (thorough), for chunked formats also MAGIC + every string <= 2 and a valid header with fixed-up checksum + every body <= 2 for each chunk type, for textual parsers every string of <= 3 (4) tokens over {s,e,-,@,0,1,g,é,😀,_root}; (b) every single-site mutation (overwrite with 5+4 values quick / all 255 thorough, deletion, 4 insertions, transposition, truncation) of every corpus encoding (documents B1/B2/(B3), save+incrementals, a document with a queued orphan, raw and DEFLATEd changes, a bundle, sync messages of two sessions incl. mutations inside the nested change chunks, a sync state, Bloom filters, cursors, object ids, the repository's fixtures and fuzz crashers) with chunk length and checksum recomputed; (c) every LEB128 field replaced by 13 extreme values; oracle: returns a value or an error - no panic, no abort / OOM kill / stack overflow (worker process death is attributed to the journaled case and must reproduce twice), no case may run longer than 10 s (in-worker watchdog)",
+        "for each of 21 decoders (load with four option sets, load_unverified_heads, load_incremental into an empty and a populated document, rescue, Change::from_bytes (+decode +apply), Bundle, sync Message::decode (+receive +generate, also as the answer to a message of ours), State::decode, BloomFilter::try_from (+queries), Cursor from bytes and from strings (+resolution), ObjId from bytes (+reads), ActorId / ChangeHash from strings and bytes, import / import_obj): (a) EVERY byte string of length <= 2 (quick) / <= 3 (thorough), for chunked formats also MAGIC + every string <= 2 and a valid header with fixed-up checksum + every body <= 2 for each chunk type, for textual parsers every string of <= 3 (4) tokens over {s,e,-,@,0,1,g,é,😀,_root}; (b) every single-site mutation (overwrite with 5+4 values quick / all 255 thorough, deletion, 4 insertions, transposition, truncation) of every corpus encoding (documents B1/B2/(B3), save+incrementals, a document with a queued orphan, raw and DEFLATEd changes, a bundle, sync messages of two sessions incl. mutations inside the nested change chunks, a sync state, Bloom filters, cursors, object ids, the repository's fixtures and fuzz crashers) with chunk length and checksum recomputed; (c) every LEB128 field replaced by 13 extreme values; oracle: returns a value or an error - no panic, no abort / OOM kill / stack overflow (worker process death is attributed to the journaled case and must reproduce twice), no case may use more than 10 s of CPU time (in-worker watchdog)",
         &["worker subprocesses with RLIMIT_AS 3 GiB", "distinct_nontrivial counts decoder classes exercised plus those that accepted at least one input"],
         complete,
     )
